@@ -274,6 +274,10 @@ def line_rules(ctx, I):
 
 def run(ctx, tier):
     declare(ctx)
+    ctx.rule('C20.R7', 'the one parser instance the processor (and the handlers) share carries nothing from line to line: '
+                       'parse() re-assigns every attribute a reader uses, on every path', floor=10)
+    from . import rules_c18
+    rules_c18.parse_rules(ctx, rules_c18.parser_interp(ctx.model, unroll=2), r5='C20.R7', freshness_only=True)
     I = make_interp(ctx.model, unroll=2 if tier == 'thorough' else 1)
     isolation_rule(ctx, I)
     install_handler_summaries(I)
